@@ -150,3 +150,6 @@ uint32_t __wrap_arc4random(void) { return HOOKED(arc4random_) ? simos_hooks.arc4
 void __wrap_arc4random_buf(void *b, size_t n) { if (HOOKED(arc4random_buf_)) simos_hooks.arc4random_buf_(b, n); else __real_arc4random_buf(b, n); }
 int __wrap_rand(void) { return HOOKED(rand_) ? simos_hooks.rand_() : __real_rand(); }
 long __wrap_random(void) { return HOOKED(random_) ? simos_hooks.random_() : __real_random(); }
+
+int __real_pthread_mutex_timedlock(pthread_mutex_t *, const struct timespec *);
+int __wrap_pthread_mutex_timedlock(pthread_mutex_t *m, const struct timespec *ts) { return HOOKED(mutex_timedlock_) ? simos_hooks.mutex_timedlock_(m, ts) : __real_pthread_mutex_timedlock(m, ts); }
